@@ -16,10 +16,11 @@ import (
 func init() {
 	fw.Register(&fw.Prop{
 		ID: "C15",
-		Rule: "gradient monitor of Relu / LeakyRelu(m) / Sigmoid / Tanh / Softmax(Dim): (i) input as a tracked leaf over every shape of rank 0..R (sizes 1..3), every Softmax Dim, slopes {0.01 (nil config), 0, 0.5, 2, -0.3}, input classes {unique reals, exact zeros mixed with non-zeros, |x| up to 700}, random non-uniform upstream weighting G: the input's gradient must be finite, of the input's shape and equal G x derivative (1/0, 1/m, s(1-s), 1-tanh^2, p_i(g_i - sum_j p_j g_j) along Dim); at an input of exactly 0 Relu/LeakyRelu must lie in the closed interval between the two one-sided values. " +
+		Rule: "gradient monitor of Relu / LeakyRelu(m) / Sigmoid / Tanh / Softmax(Dim): (i) input as a tracked leaf over every shape of rank 0..R (sizes 1..3), every Softmax Dim, slopes {0.01 (nil config), 0, 0.5, 2, -0.3}, input classes {unique reals, exact zeros mixed with non-zeros, |x| up to 700, non-zero values of magnitude 1e-300}, random non-uniform upstream weighting G: the input's gradient must be finite, of the input's shape and equal G x derivative (1/0, 1/m, s(1-s), 1-tanh^2, p_i(g_i - sum_j p_j g_j) along Dim); at an input of exactly 0 (and within the library's equality tolerance 1e-240 of it) Relu/LeakyRelu must lie in the closed interval between the two one-sided values. " +
 			"(ii) input as an intermediate of a random upstream tracked program (C01 generator): every tensor of the whole graph is compared with the reference tape. " +
 			"Softmax along a dimension of size > 1 goes through an implicit expansion of its normaliser: a failing case is attributed to the recorded finding only if EVERY gradient equals the reference tape run with BroadcastRule=Avg; size-1 Softmax and all other activations have no expansion and must match exactly. " +
-			"Non-trivial: >= 2 elements or an upstream program; distinct = (activation, config, shape, value class, variant). Later addition: groups of same-rank shapes that collide under ad-hoc cache keys, back-propagated one after the other in one case.",
+			"Non-trivial: >= 2 elements or an upstream program; distinct = (activation, config, shape, value class, variant). Later addition: groups of same-rank shapes that collide under ad-hoc cache keys, back-propagated one after the other in one case." +
+			" Round 4: every third activation object first sees a non-finite batch of the same shape.",
 		Assumptions: []string{"gradient comparison: |r-e| <= 1e-10*(1+max|e|) + 1e-9*max(|r|,|e|)"},
 		FloorQuick:  5000, FloorThor: 15000,
 		Run: runC15,
@@ -33,7 +34,7 @@ func runC15(c *fw.Ctx) {
 			if sp.name == "LeakyRelu(0.01)" || sp.name == "LeakyRelu(1)" {
 				continue
 			}
-			for class := 0; class < 3; class++ {
+			for class := 0; class < 4; class++ {
 				shape, sp, class := shape, sp, class
 				c.Case(func(k *fw.K) { c15Leaf(k, sp, shape, class) })
 			}
@@ -80,6 +81,9 @@ func c15Leaf(k *fw.K, sp actSpec, shape []int, class int) {
 		k.Failf("%s: constructor: %v", sp.name, err)
 		return
 	}
+	if k.Index%3 == 0 { // the object first saw a batch of the same shape that is not finite
+		actPoison(k, obj, shape)
+	}
 	rx := rt.MustLeaf(x, true)
 	var ry tensor.Tensor
 	if p := call(func() {
@@ -112,7 +116,8 @@ func c15Leaf(k *fw.K, sp actSpec, shape []int, class int) {
 	mismatch := ""
 	for i := range want.Data {
 		gv, wv := got.Data[i], want.Data[i]
-		if (sp.in.Op == "relu" || sp.in.Op == "leakyrelu") && x.Data[i] == 0 {
+		if (sp.in.Op == "relu" || sp.in.Op == "leakyrelu") && math.Abs(x.Data[i]) <= 1e-240 {
+			// inputs within the library's own equality tolerance (1e-240) of 0 are read as "at 0"
 			lo, hi := 0., 1.
 			if sp.in.Op == "leakyrelu" {
 				lo = sp.in.F
@@ -123,7 +128,7 @@ func c15Leaf(k *fw.K, sp actSpec, shape []int, class int) {
 			}
 			k.Count("elements_at_exactly_zero", 1)
 			if gv < a-tolA || gv > b+tolA {
-				k.Failf("%s on shape %v: at an input of exactly 0 (element %d) the gradient %v lies outside the interval [%v, %v] spanned by the one-sided derivatives x upstream weighting %v", sp.name, shape, i, gv, a, b, g.Data[i])
+				k.Failf("%s on shape %v: at an input of 0 +- 1e-240 (element %d) the gradient %v lies outside the interval [%v, %v] spanned by the one-sided derivatives x upstream weighting %v", sp.name, shape, i, gv, a, b, g.Data[i])
 				return
 			}
 			continue
